@@ -97,14 +97,25 @@ def _work(name, a):
     return buf
 
 
+def _seq(case, tup, ints=False, keep_tuple=False):
+    """the pair arguments (domain, modes, measurement point; the profile 5-tuple) in the container the caller holds them in: a tuple
+    (default), a list, a numpy array - `case["_cont"]` selects"""
+    cont = case.get("_cont")
+    if cont == "list":
+        return list(tup)
+    if cont == "array" and not keep_tuple:
+        return np.array(tup, dtype=int if ints else float)
+    return tup
+
+
 def real_solve(case, cache=None):
     """Call the real solver with the request."""
     from bldfm.solver import steady_state_transport_solver
     return steady_state_transport_solver(
         _work("q", case["q"]), _work("z", case["z"]),
-        tuple(_work("prof%d" % k, p) for k, p in enumerate(case["profiles"])),
-        tuple(case["domain"]), case["levels"], modes=tuple(case["modes"]),
-        meas_pt=tuple(case["meas_pt"]), srf_bg_conc=case.get("bg", 0.0),
+        _seq(case, tuple(_work("prof%d" % k, p) for k, p in enumerate(case["profiles"])), keep_tuple=True),
+        _seq(case, tuple(case["domain"])), case["levels"], modes=_seq(case, tuple(case["modes"]), ints=True),
+        meas_pt=_seq(case, tuple(case["meas_pt"])), srf_bg_conc=case.get("bg", 0.0),
         footprint=case["footprint"], analytic=case["analytic"], halo=case.get("halo"),
         precision=case["precision"], cache=cache)
 
